@@ -968,8 +968,45 @@ func ruleTLIdx(c *Ctx) {
 						need = k + 1
 					}
 				case *ssa.IndexAddr:
-					if _, isArr := x.X.Type().Underlying().(*types.Pointer); isArr {
-						continue // arrays: the compiler checks constants
+					if pt, isArr := x.X.Type().Underlying().(*types.Pointer); isArr {
+						// arrays: the compiler checks constant indices; a computed one needs a dominating bound
+						if _, isK := x.Index.(*ssa.Const); isK {
+							continue
+						}
+						at, ok := pt.Elem().Underlying().(*types.Array)
+						if !ok {
+							continue
+						}
+						n++
+						key := fmt.Sprintf("%s/array-index#%d", fnKey(f), n)
+						bounded := false
+						idx := stripConv(x.Index)
+						for _, cmp := range facts {
+							if stripConv(cmp.X) != idx {
+								continue
+							}
+							if k, ok := (Folder{P}).FoldInt(cmp.Y); ok {
+								if cmp.Op == token.LSS && k <= at.Len() || cmp.Op == token.LEQ && k < at.Len() {
+									bounded = true
+								}
+							}
+						}
+						// a loop counter of a loop bounded by the array's length
+						if phi, isPhi := idx.(*ssa.Phi); isPhi && !bounded {
+							if l := loopWithHeader(f, phi.Block()); l != nil {
+								if cl := countedLoop(l); cl != nil && cl.Phi == phi {
+									if k, ok := (Folder{P}).FoldInt(cl.Bound); ok && cl.Op == token.LSS && k <= at.Len() {
+										bounded = true
+									}
+								}
+							}
+						}
+						// unsigned small types cannot exceed large tables
+						if b, ok := idx.Type().Underlying().(*types.Basic); ok && b.Kind() == types.Uint8 && at.Len() >= 256 {
+							bounded = true
+						}
+						c.Check(bounded, key, P.pos(in.Pos()), fmt.Sprintf("the computed index is known to be below the array's length %d", at.Len()), fmt.Sprintf("a computed index into an array of %d elements has no dominating bound: input that drives it past the end panics", at.Len()))
+						continue
 					}
 					base, idxExpr, what = x.X, x.Index, "index"
 					if k, ok := constInt(x.Index); ok {
